@@ -197,9 +197,9 @@ def run_impl(exe, scripts, symbolize=False):
         for s, ops in todo[:done]:
             out[s] = (got.get(str(s), []), None)
         s, ops = todo[done]
-        tail = "\n".join(se.split("\n")[:40])
+        sel = [l.strip() for l in se.split("\n") if "ERROR:" in l or "runtime error" in l or "rtrlib/" in l or "SUMMARY" in l]
         kind = "sanitizer" if "Sanitizer" in se or "runtime error" in se else "exit code %d" % rc
-        out[s] = (got.get(str(s), []), {"kind": kind, "exit": rc, "stderr": tail[-2500:]})
+        out[s] = (got.get(str(s), []), {"kind": kind, "exit": rc, "stderr": "\n".join(sel[:12])[:2500] or se[:1500]})
         todo = todo[done + 1:]
     return out
 
@@ -242,11 +242,25 @@ def parse_status(line):
     return {"pref": int(m.group(1)), "status": m.group(2), "by": m.group(3), "socks": socks}
 
 
+def visible(ops):
+    """Ops that are echoed: everything except what lies between `mute` and `unmute`."""
+    out, m = [], False
+    for o in ops:
+        if o == "unmute":
+            m = False
+        if not m:
+            out.append(o)
+        if o == "mute":
+            m = True
+    return out
+
+
 # ----------------------------------------------------------------------------- the specification, clause by clause
 def spec_check(ops, blocks, crash):
     """Evaluate every clause of C15 on Impl's trace of one script.  Returns a list of
     {clause, key, op_index, detail}; independent of the Coq model."""
     bad = []
+    ops = visible(ops)
 
     def viol(clause, i, detail, key=None):
         bad.append({"clause": clause, "key": key or clause, "op_index": i, "op": ops[i] if i < len(ops) else None,
@@ -268,9 +282,9 @@ def spec_check(ops, blocks, crash):
                     expect_reject = (not specs) or any(n == 0 for p, n in specs) or len(set(prefs)) != len(prefs)
                 if expect_reject:
                     viol("init-rejects-with-error", i, "rtr_mgr_init crashed instead of returning an error: %s: %s"
-                         % (crash["kind"], crash["stderr"][-600:]), key="init-error-path-crash")
+                         % (crash["kind"], crash["stderr"][:700]), key="init-error-path-crash")
                 else:
-                    viol("no-crash", i, "%s: %s" % (crash["kind"], crash["stderr"][-600:]), key="crash:" + w[0])
+                    viol("no-crash", i, "%s: %s" % (crash["kind"], crash["stderr"][:700]), key="crash:" + w[0])
             else:
                 viol("trace-incomplete", i, "no output for this op")
             return bad
@@ -384,13 +398,14 @@ def spec_check(ops, blocks, crash):
                         viol("failover", i, "sockets of other groups started: %r" % extra)
         prev = cfg
     if crash and len(blocks) >= len(ops):
-        viol("no-crash", len(ops) - 1, "%s after the last op: %s" % (crash["kind"], crash["stderr"][-600:]), key="crash:end")
+        viol("no-crash", len(ops) - 1, "%s after the last op: %s" % (crash["kind"], crash["stderr"][:700]), key="crash:end")
     return bad
 
 
 def tie_diff(ops, impl_blocks, crash, model_blocks):
     """First difference between Impl and Model on one script, or None.  A crash of Impl where the
     model says `undef` (the C's behaviour is undefined there) counts as agreement."""
+    ops = visible(ops)
     for i, op in enumerate(ops):
         mb = model_blocks[i] if i < len(model_blocks) else None
         ib = impl_blocks[i] if i < len(impl_blocks) else None
@@ -634,6 +649,7 @@ def explore(runner, variant, init, alphabet, depth, budget, t_end):
     total_pairs = 0
     level_sizes = []
     spec_bad, tie_bad = [], []
+    spec_keys = {}
     truncated = False
     for d in range(depth):
         scripts = []
@@ -654,7 +670,11 @@ def explore(runner, variant, init, alphabet, depth, budget, t_end):
             chunk = scripts[c:c + CH]
             fin = {}
             sb, tb = runner.evaluate(chunk, variant, last_only=True, finals=fin)
-            spec_bad += [(s, strip(ops), v) for s, ops, v in sb]
+            for s, ops, v in sb:      # keep a few witnesses per clause, go on exploring
+                k = v[0]["key"]
+                spec_keys[k] = spec_keys.get(k, 0) + 1
+                if spec_keys[k] <= 3:
+                    spec_bad.append((s, strip(ops), v))
             tie_bad += [(s, strip(ops), v) for s, ops, v in tb]
             for sid, fam, ops in chunk:
                 key = fin.get(sid)
@@ -662,12 +682,13 @@ def explore(runner, variant, init, alphabet, depth, budget, t_end):
                     path = strip(ops)[1:]
                     seen[key] = path
                     nxt.append(path)
-            if spec_bad or tie_bad:
+            if tie_bad:
                 break
-        if spec_bad or tie_bad:
+        if tie_bad:
             break
         frontier = nxt
     return {"init": init, "depth_reached": len(level_sizes), "depth_asked": depth, "states": len(seen),
+            "closed": (not truncated) and not frontier and not tie_bad, "spec_violations_by_key": spec_keys,
             "pairs": total_pairs, "frontier_sizes": level_sizes, "truncated": truncated,
             "spec_bad": spec_bad, "tie_bad": tie_bad}
 
@@ -728,7 +749,7 @@ def run(chk):
         scripts.append((len(scripts), "corpus", ops))
     for fam, ops in fixed_families():
         scripts.append((len(scripts), fam, ops))
-    n_rand = 2500 if chk.tier == "quick" else 30000
+    n_rand = 6000 if chk.tier == "quick" else 40000
     for _ in range(n_rand):
         scripts.append((len(scripts), "random", random_script(rnd)))
     for _ in range(n_rand // 10):
@@ -746,7 +767,7 @@ def run(chk):
             for counts in itertools.product((1, 2), repeat=ng):
                 init = "init " + " ".join("%d:%d" % (i + 1, n) for i, n in enumerate(counts))
                 ns = sum(counts)
-                depth = {1: 7, 2: 6, 3: 5, 4: 5}.get(ns, 4)
+                depth = {1: 12, 2: 12, 3: 7, 4: 6, 5: 5, 6: 5}[ns]
                 plan.append((init, event_alphabet(init), depth, "events"))
         for init in ("init 1:1", "init 2:2", "init 1:1 3:2", "init 1:2 2:1 3:1"):
             plan.append((init, group_alphabet(init), 4, "groups"))
@@ -821,7 +842,8 @@ def run(chk):
         "samples": [ops for sid, fam, ops in scripts[:2]] + [ops for sid, fam, ops in scripts if fam == "random"][:2],
         "exhaustive": bool(exhaustive) and all(not r["truncated"] for r in exhaustive),
         "exhaustive_runs": exhaustive,
-        "exhaustive_note": "breadth-first over Impl configurations (dump after each op = every field rtr_mgr.c reads), equal "
+        "exhaustive_note": "'closed': true means the frontier became empty: EVERY sequence of any length over the alphabet was covered "
+                           "for that start configuration.  Otherwise: breadth-first over Impl configurations (dump after each op = every field rtr_mgr.c reads), equal "
                            "configurations merged; every (reachable configuration, op) pair up to the stated depth is executed "
                            "on Impl and Model by replaying a shortest path; alphabet 'events' = start, stop, every socket x "
                            "the 9 states the FSM reports, last_update set/cleared per socket; alphabet 'groups' = start, stop, "
